@@ -159,7 +159,15 @@ func (goh *GoatOverHttp) ServeHTTP(w http.ResponseWriter, r *http.Request) {
 		go goh.onConnect(source, conn)
 	}
 
-	conn.readCh <- &rpc
+	select {
+	case conn.readCh <- &rpc:
+	case <-conn.done:
+		// timed out (or cancelled) while we were waiting for its reader
+		log.Error().Msgf("GoatOverHttp: connection to %s closed", source)
+		http.Error(w, "connection closed", http.StatusServiceUnavailable)
+	case <-r.Context().Done():
+		http.Error(w, "request cancelled", http.StatusServiceUnavailable)
+	}
 }
 
 // connectionCleaner ticks every |connectionCleanupInterval|, closing any
@@ -197,6 +205,7 @@ func (goh *GoatOverHttp) retrieve(id string) (*httpReadWriter, bool) {
 		conn = &httpReadWriter{
 			writeAddr: id,
 			readCh:    make(chan *Rpc),
+			done:      make(chan struct{}),
 			cancel:    func() { goh.unregister(id) },
 			clock:     goh.clock,
 		}
@@ -216,7 +225,8 @@ func (goh *GoatOverHttp) unregister(id string) {
 
 func (goh *GoatOverHttp) unregisterLocked(id string) {
 	if conn, ok := goh.conns.value[id]; ok {
-		close(conn.readCh)
+		// readCh itself is never closed: a ServeHTTP may be parked sending on it.
+		close(conn.done)
 	}
 
 	delete(goh.conns.value, id)
@@ -225,6 +235,7 @@ func (goh *GoatOverHttp) unregisterLocked(id string) {
 type httpReadWriter struct {
 	writeAddr string
 	readCh    chan *Rpc
+	done      chan struct{} // closed when the connection is unregistered
 	cancel    func()
 
 	clock        clockwork.Clock
@@ -232,13 +243,16 @@ type httpReadWriter struct {
 }
 
 func (hrw *httpReadWriter) Read(ctx context.Context) (*Rpc, error) {
-	rpc, ok := <-hrw.readCh
-	if !ok {
+	select {
+	case rpc := <-hrw.readCh:
+		hrw.bumpActivity()
+		return rpc, nil
+	case <-hrw.done:
 		log.Error().Msgf("HttpRpcReadWriter: read err: closed")
 		return nil, errors.New("readCh closed")
+	case <-ctx.Done():
+		return nil, ctx.Err()
 	}
-	hrw.bumpActivity()
-	return rpc, nil
 }
 
 func (hrw *httpReadWriter) Write(ctx context.Context, rpc *Rpc) error {
